@@ -8,6 +8,7 @@
   outcome independent of that order.
 -/
 import Proofs.C15Lemmas
+import Proofs.C15Sort
 import TaurexModel.Gen.Registry
 import TaurexModel.Gen.Docs
 
@@ -308,5 +309,53 @@ theorem lenient_sections_bind_strictly :
     ∀ s ∈ lenientSections, (Registry.registry.sec s).mixins = [] ∧
       ∀ k ∈ (Registry.registry.sec s).classes, k.varkw = false := by
   decide +kernel
+
+/-- **The class a custom file provides** (`[x] type = custom`, `python_file = …`): among the classes of the file that
+    derive from the section's base class, the FIRST BY NAME (the order of `inspect.getmembers`) — it is one of them and no
+    other candidate has a smaller name; the file is rejected exactly when it has no such class. -/
+theorem custom_class_pick (members : List Klass) (sec : String) :
+    (∀ k, detectKlass members sec = .ok k →
+      k ∈ members ∧ k.sections.contains sec = true ∧
+      ∀ k' ∈ members, k'.sections.contains sec = true → k.name ≤ k'.name) ∧
+    ((∀ k ∈ members, k.sections.contains sec = false) →
+      detectKlass members sec = .error (.generic "no class in custom file")) ∧
+    ((∃ k ∈ members, k.sections.contains sec = true) → ∃ k, detectKlass members sec = .ok k) := by
+  have hsorted := sortByName_sorted (members.filter (fun k => k.sections.contains sec))
+  have hmem : ∀ y, y ∈ sortByName (members.filter (fun k => k.sections.contains sec))
+      ↔ y ∈ members ∧ y.sections.contains sec = true := by
+    intro y
+    rw [mem_sortByName, List.mem_filter]
+  refine ⟨?_, ?_, ?_⟩
+  · intro k hk
+    unfold detectKlass at hk
+    cases hs : sortByName (members.filter (fun k => k.sections.contains sec)) with
+    | nil => rw [hs] at hk; cases hk
+    | cons x t =>
+      rw [hs] at hk hsorted
+      have hx : x = k := by injection hk
+      subst hx
+      have hxm := (hmem x).1 (by rw [hs]; simp)
+      refine ⟨hxm.1, hxm.2, fun k' hk' hsec => ?_⟩
+      have : k' ∈ x :: t := by rw [← hs]; exact (hmem k').2 ⟨hk', hsec⟩
+      rcases List.mem_cons.1 this with rfl | ht
+      · exact String.le_refl _
+      · exact (List.pairwise_cons.1 hsorted).1 k' ht
+  · intro hnone
+    unfold detectKlass
+    have : members.filter (fun k => k.sections.contains sec) = [] := by
+      rw [List.filter_eq_nil_iff]
+      intro k hk
+      have := hnone k hk
+      simpa using this
+    rw [this]
+    rfl
+  · intro ⟨k, hk, hsec⟩
+    unfold detectKlass
+    cases hs : sortByName (members.filter (fun k => k.sections.contains sec)) with
+    | nil =>
+      have := (hmem k).2 ⟨hk, hsec⟩
+      rw [hs] at this
+      cases this
+    | cons x t => exact ⟨x, rfl⟩
 
 end Taurex.C15
